@@ -59,7 +59,17 @@ impl BlockCursor {
     #[verifier::external_body]
     fn key_value(&self) -> (r: Option<KeyValueRef<'_>>)
         requires self.wf(),
-        ensures (r is Some) == (0 <= self.pos() < self.ents().len()),
+        ensures (r is Some) == (0 <= self.pos() < self.ents().len()), kvref_is(r, self.ents(), self.pos()),
+    { unimplemented!() }
+}
+// the sealed index block and the cursor over it
+#[verifier::external_body]
+struct Block { _p: u8 }
+impl Block {
+    uninterp spec fn ents(&self) -> Seq<Ent>;
+    #[verifier::external_body]
+    fn cursor(&self) -> (r: BlockCursor)
+        ensures r.ents() == self.ents(), sorted(r.ents()), -1 <= r.pos() <= r.ents().len(),
     { unimplemented!() }
 }
 
@@ -72,6 +82,56 @@ struct BlockMetadata { _p: u8 }
 struct SstRest { _p: u8 }
 // only the field SstCursor touches directly (`Arc<Vec<_>>` in the repository; `.len()` / indexing read through it)
 struct Sst { index_entries: Vec<SstIndexEntry>, rest: SstRest }
+
+
+pub assume_specification<T: Clone> [<[T]>::to_vec] (s: &[T]) -> (r: Vec<T>)
+    ensures r@ == s@;
+// the decoder of one index value (derive-generated BlockMetadata::unpack): anything may come back
+#[verifier::external_body]
+fn unpack_metadata(value: &[u8]) -> (r: Result<BlockMetadata, SError>) { unimplemented!() }
+// a tombstone in the index is an error; everything else decodes to Some(metadata) or an error -- never to "stop here"
+//@ extract sst/src/lib.rs | impl SstCursor<W> :: fn metadata_from_kvr
+//@ ret r
+//@ rewrite-re X7 `let mut up = Unpacker::new\(value\);\s*let metadata: BlockMetadata = up\.unpack\(\)\.map_err\(unpack_block_metadata\)\?;` => `let metadata: BlockMetadata = unpack_metadata(value)?;`
+//@ post <<
+        r is Ok ==> r->Ok_0 is Some,
+//@ >>
+//@ end
+spec fn entry_keys(v: Seq<SstIndexEntry>) -> Seq<Seq<u8>> { Seq::new(v.len(), |i: int| v[i].key@) }
+spec fn ent_keys(s: Seq<Ent>) -> Seq<Seq<u8>> { Seq::new(s.len(), |i: int| s[i].key) }
+
+// the index entries an opened table holds are, key for key and in order, a prefix of the entries of its index block --
+// all of them unless a value fails to decode (error) or decodes to "nothing" (stop): the dividers the builder wrote are
+// the dividers the cursor searches
+//@ extract sst/src/lib.rs | impl Sst<W> :: fn load_index_entries
+//@ ret r
+//@ rewrite-re X4 `SstCursor::<W>::metadata_from_kvr\(&kvr\)\?` => `metadata_from_kvr(&kvr)?`
+//@ rewrite-re X12 `let Some\(metadata\) = metadata_from_kvr\(&kvr\)\? else \{\s*break;\s*\};` => `let metadata = match metadata_from_kvr(&kvr)? { Some(m) => m, None => { break; } };`
+//@ post <<
+        r is Ok ==> entry_keys(r->Ok_0@) == ent_keys(index_block.ents()),
+//@ >>
+//@ bodystart <<
+        let ghost ie = index_block.ents();
+//@ >>
+//@ loop 0 <<
+            invariant
+                cursor.wf(), cursor.ents() == ie, 0 <= cursor.pos() <= ie.len(),
+                entries@.len() == cursor.pos(),
+                entry_keys(entries@) == ent_keys(ie).subrange(0, entries@.len() as int),
+            ensures
+                entries@.len() == ie.len(),
+            decreases ie.len() - cursor.pos(),
+//@ >>
+//@ endloop 0 <<
+            proof { assert(entry_keys(entries@) =~= ent_keys(ie).subrange(0, entries@.len() as int)); }
+//@ >>
+//@ before `Ok(entries)` <<
+        proof { assert(ent_keys(ie).subrange(0, ie.len() as int) =~= ent_keys(ie)); }
+//@ >>
+//@ before `while let Some(kvr) = cursor.key_value() {` <<
+        proof { assert(entry_keys(entries@) =~= ent_keys(ie).subrange(0, 0)); }
+//@ >>
+//@ end
 
 //@ include flat.inc.rs
 //@ include sst_table.inc.rs
